@@ -139,6 +139,9 @@ class Kernel:
 
     # -- line granularity --------------------------------------------------
     line_mean = None
+    line_stall = 0
+    stall_total = 0.0
+    stall_max = 0.0
 
     def enable_lines(self, spec, roots):
         """Pre-empt sim threads between source lines of files under ``roots``.
@@ -156,6 +159,10 @@ class Kernel:
         self.line_focus = frozenset(spec['focus']) if spec.get('focus') \
             else None
         self.line_left = int(spec.get('max', 1000))
+        # stall: the pre-empted thread stays away for 1..stall ticks of
+        # virtual time (an OS thread that lost the CPU); 0 = it only yields
+        # to the actors of the same instant
+        self.line_stall = int(spec.get('stall', 0))
         self.line_roots = tuple(roots)
         self.stats['line_events'] = 0
         self.stats['line_preempts'] = 0
@@ -165,7 +172,10 @@ class Kernel:
     def line_faults(self):
         if not self.line_mean:
             return {}
-        return {'preemption_between_lines': self.stats['line_preempts']}
+        d = {'preemption_between_lines': self.stats['line_preempts']}
+        if self.stats.get('line_stalls'):
+            d['thread_stalled_between_lines'] = self.stats['line_stalls']
+        return d
 
     def _draw_gap(self):
         if self.line_left <= 0:
@@ -190,7 +200,7 @@ class Kernel:
         if th is None or th.no_preempt or \
                 th._t is not threading.current_thread():
             return self._local_trace
-        if self.runnable or self.due or (
+        if self.line_stall or self.runnable or self.due or (
                 self.timers and self.timers[0].when <= self.now) or (
                 self.loop is not None and self.loop.has_work()):
             self.stats['line_events'] += 1
@@ -201,8 +211,17 @@ class Kernel:
                 site = '%s:%d' % (frame.f_code.co_filename.rsplit('/', 1)[-1],
                                   frame.f_lineno)
                 self.line_sites[site] = self.line_sites.get(site, 0) + 1
-                self.ev('preempt', site=site)
-                self.yield_point('line')
+                if self.line_stall:
+                    d = (1 + self.tape.draw(self.line_stall, 'stall')) * TICK
+                    self.stall_total += d
+                    self.stall_max = max(self.stall_max, d)
+                    self.stats['line_stalls'] = self.stats.get(
+                        'line_stalls', 0) + 1
+                    self.ev('stall', site=site, ticks=round(d / TICK))
+                    self.block(d, 'stall')
+                else:
+                    self.ev('preempt', site=site)
+                    self.yield_point('line')
         return self._local_trace
 
     def yield_point(self, what=''):
